@@ -12,10 +12,12 @@
     lcapy/componentnamer.py       : ComponentNamer.name
     lcapy/node.py                 : Node._count / is_dangling ; mnacpts.Cpt.is_dangling / is_disconnected
 
-  The model mirrors what the CODE does (values summed ignoring orientation, initial conditions
-  summed, the first element of the *set* survives, interior nodes are not inspected).  The set
-  iteration order of Python (`list(subset)`, PYTHONHASHSEED) is modelled as nondeterminism: every
-  function that depends on it returns the list of all possible outcomes.
+  The model mirrors what the CODE does (sources summed with their polarity relative to the
+  surviving element, shared initial conditions taken once and additive ones summed with polarity,
+  the member with the least name survives (`sorted(subset)`), interior nodes are not inspected).
+  The functions return LISTS of outcomes so that any dependence on Python's set iteration order
+  (PYTHONHASHSEED) can be expressed; with the sorted subset every list has exactly one element,
+  and the harness requires the real outcome under every hash seed to be that element.
   Values are elements of a carrier `K` (the driver uses checked rationals: values at a sample point).
   No Mathlib import.
 -/
@@ -40,26 +42,32 @@ def recipSum (vs : List K) : K := 1 / sumVals (vs.map (fun v => 1 / v))
     Orientation of the members is NOT consulted. -/
 def combineVal (add : Bool) (vs : List K) : K := if add then sumVals vs else recipSum vs
 
-/-- the code's combined initial condition, decided by the FIRST element of the set:
-    no IC on the first ⇒ none (whatever the others carry); IC on the first ⇒ the sum of all
-    ICs, and an `IndexError` (`args[1]` of an element without IC) if any other has none. -/
-def combineIC (first : Option K) (all : List (Option K)) : Except String (Option K) :=
-  match first with
-  | none => .ok none
-  | some _ => if all.all Option.isSome then .ok (some (sumVals (all.filterMap id))) else .error "IndexError"
+/-- value of a group of sources: each member enters with its polarity relative to the
+    surviving element (`value * signs[name1]`) -/
+def combineSrc [Neg K] (svs : List (Bool × K)) : K := sumVals (svs.map (fun p => if p.1 then p.2 else -p.2))
+
+/-- the code's combined initial condition.
+    `shared` (series inductors, parallel capacitors — `_check_ic` has verified that all members
+    agree): the initial condition of the surviving element, taken once.
+    otherwise (series capacitors, parallel inductors): the sum of the members' initial conditions,
+    each with its polarity relative to the surviving element, a member without one contributing
+    nothing; `None` when no member has one. -/
+def combineIC [Neg K] (shared : Bool) (first : Option K) (signedAll : List (Bool × Option K)) : Option K :=
+  if shared then first
+  else if signedAll.all (fun p => p.2.isNone) then none
+  else some (combineSrc (signedAll.filterMap (fun p => p.2.map (fun v => (p.1, v)))))
 
 end values
 
-/-- `_check_ic`: all members agree on having an IC and, if so, on its value.  The member popped
-    from the set decides what happens when only some members carry an IC: popped without IC ⇒
-    `False` (the group is skipped); popped with IC ⇒ `args[1]` of a member without IC raises
-    `IndexError`.  Returns every possible answer. -/
-def checkIC [DecidableEq K] (ics : List (Option K)) : List (Except String Bool) :=
-  if ics.all Option.isSome || ics.all Option.isNone then
-    match ics with
-    | [] => [.ok true]
-    | a :: t => [.ok (t.all (fun b => b = a))]
-  else [.ok false, .error "IndexError"]
+/-- `_check_ic`: all members agree on having an IC and, if so, on its value taken with the
+    member's polarity (the answer does not depend on which member is popped first) -/
+def checkIC [DecidableEq K] [Neg K] (ics : List (Bool × Option K)) : Bool :=
+  if ics.all (fun p => p.2.isNone) then true
+  else if ics.all (fun p => p.2.isSome) then
+    match ics.filterMap (fun p => p.2.map (fun v => if p.1 then v else -v)) with
+    | [] => true
+    | a :: t => t.all (fun b => b = a)
+  else false
 
 /-! ### equipotential nodes (nodes joined by wires) -/
 
@@ -164,6 +172,7 @@ def inParallel (net : Net K) (g : Graph) (e : Elt K) : List String :=
   let a := nm e.n1
   let b := nm e.n2
   let direct := match g.edgeName a b with | some n => [n] | none => []
+  if a = b then [e.name] else     -- a short-circuited component is not in parallel with anything
   let via (x y : String) : List String :=
     (g.nbrs x).flatMap (fun p =>
       if p.1.startsWith "*" then
@@ -294,23 +303,28 @@ def correctIC (shared : Bool) (sg : List (String × Bool)) (first : Elt K) (grou
   else if shared then some (first.ic.getD 0)
   else some (sumVals (group.map (fun e => signed sg e (e.ic.getD 0))))
 
-/-- combine `group` with `first` as `subset_list[0]`: the new element takes the first's nodes,
-    keyword and extra arguments, the combined value and IC, and the name `<initial>t<m>`;
-    in series the other members are re-emitted as wires on their own nodes, in parallel
-    they are dropped.  New lines are appended at the end of the netlist (`net.add`). -/
-def combineWith (st : Sweep K) (group : List (Elt K)) (first : Elt K) (add series : Bool) :
+/-- combine `group` with `first` as `subset_list[0]`: the new element takes the first's nodes and
+    keyword, the combined value and IC, and the name `<type>t<m>`; in series the other members are
+    re-emitted as wires on their own nodes, in parallel they are dropped.  New lines are appended
+    at the end of the netlist (`net.add`).  Sources are combined only when every member has the
+    same keyword and a single argument (otherwise the group is left alone). -/
+def combineWith (ref : Net K) (st : Sweep K) (group : List (Elt K)) (first : Elt K) (add series : Bool) :
     Except String (Sweep K) := do
-  let total := combineVal add (group.filterMap (·.val))
-  let ic ← combineIC first.ic (group.map (·.ic))
-  let newname := freshName ((first.name.take 1).toString ++ "t") st.taken (st.taken.length + 1) 1
-  if !(["R", "L", "C", "V", "I", "Y", "Z"].contains (first.name.take 1).toString) then
-    throw "ValueError"      -- e.g. NR1 ↦ `Nt1`, which the parser rejects
-  let newElt : Elt K := { first with name := newname, val := some total, ic := ic }
+  -- orientation is read from the netlist the sweep started from (`self.cg`), not the one being edited
+  let sg := if series then seriesSigns ref first else parallelSigns ref first group
+  let sign (e : Elt K) : Bool := match sg.find? (·.1 = e.name) with | some p => p.2 | none => true
+  let isSrc := first.ty = "V" || first.ty = "I"
+  if isSrc && !(group.all (fun e => e.kw = first.kw && e.extra = [] && e.val.isSome)) then
+    return st
+  let total := if add && isSrc then combineSrc (group.filterMap (fun e => e.val.map (fun v => (sign e, v))))
+               else combineVal add (group.filterMap (·.val))
+  let ic := if first.ty = "L" || first.ty = "C" then combineIC add first.ic (group.map (fun e => (sign e, e.ic))) else none
+  let newname := freshName (first.ty ++ "t") st.taken (st.taken.length + 1) 1
+  let newElt : Elt K := { first with name := newname, val := some total, ic := ic, extra := [] }
   let others := group.filter (fun e => e.name ≠ first.name)
   let net := st.net.filter (fun e => !(group.any (fun x => x.name = e.name)))
   let wires : List (Elt K) := if series then others.map (fun e => { name := "W", ty := "W", nodes := e.nodes.take 2 }) else []
   -- event log: where the code's rule leaves the proved rule
-  let sg := if series then seriesSigns st.net first else parallelSigns st.net first group
   let shared := (series && first.ty = "L") || (!series && first.ty = "C")
   let icOk : Bool := match ic, correctIC shared sg first group with
     | none, none => true
@@ -325,9 +339,17 @@ def combineWith (st : Sweep K) (group : List (Elt K)) (first : Elt K) (add serie
     ",".intercalate (group.map (·.name)) ++ ":" ++ ",".intercalate flags
   pure { net := net ++ [newElt] ++ wires, taken := st.taken ++ [newname], changed := true, log := st.log ++ [ev] }
 
-/-- all outcomes of combining one type-subset: one per choice of the surviving first element -/
-def combineGroup (st : Sweep K) (group : List (Elt K)) (add series : Bool) : List (Except String (Sweep K)) :=
-  group.map (fun first => combineWith st group first add series)
+/-- `subset_list = sorted(subset)`: the member with the least name survives, whatever the set order -/
+def firstOf (group : List (Elt K)) : Option (Elt K) :=
+  group.foldl (fun acc e => match acc with
+    | none => some e
+    | some m => if e.name < m.name then some e else some m) none
+
+/-- combining one type-subset (a single outcome since the subset is sorted) -/
+def combineGroup (ref : Net K) (st : Sweep K) (group : List (Elt K)) (add series : Bool) : List (Except String (Sweep K)) :=
+  match firstOf group with
+  | none => [.ok st]
+  | some first => [combineWith ref st group first add series]
 
 end combine
 
@@ -338,14 +360,14 @@ def seriesRule (ty : String) : Except String (Option (Bool × Bool)) :=
   else if ["R", "NR", "V", "Z"].contains ty then .ok (some (true, false))
   else if ty = "L" then .ok (some (true, true))
   else if ["C", "Y"].contains ty then .ok (some (false, false))
-  else .error "RuntimeError"
+  else .ok none          -- other component types (E, F, G, H, …) are not combined
 
 def parallelRule (ty : String) : Except String (Option (Bool × Bool)) :=
   if ty = "V" then .ok none
   else if ["R", "NR", "L", "Z"].contains ty then .ok (some (false, false))
   else if ["Y", "I"].contains ty then .ok (some (true, false))
   else if ty = "C" then .ok (some (true, true))
-  else .error "RuntimeError"
+  else .ok none
 
 section sweep
 variable [Add K] [Div K] [Neg K] [OfNat K 0] [OfNat K 1] [DecidableEq K]
@@ -372,13 +394,14 @@ def combineSweep (net0 : Net K) (skip : List String) (series : Bool) : List (Exc
               | .error e => outs.map (fun _ => .error e)
               | .ok none => outs
               | .ok (some (add, chk)) =>
-                if chk then
-                  (checkIC (p.2.map (·.ic))).flatMap (fun r =>
-                    match r with
-                    | .error e => outs.map (fun _ => .error e)
-                    | .ok false => outs
-                    | .ok true => bindAll outs (fun st => combineGroup st p.2 add series))
-                else bindAll outs (fun st => combineGroup st p.2 add series)) [.ok st]))
+                bindAll outs (fun st =>
+                  -- `_check_ic` judges polarity relative to the element it pops; the verdict is the same for all
+                  let ok := !chk || (match p.2 with
+                    | [] => true
+                    | f :: _ =>
+                      let sg := if series then seriesSigns net0 f else parallelSigns net0 f p.2
+                      checkIC (p.2.map (fun e => ((match sg.find? (·.1 = e.name) with | some q => q.2 | none => true), e.ic))))
+                  if ok then combineGroup net0 st p.2 add series else [.ok st])) [.ok st]))
     [.ok start]
 
 /-! ### dangling / disconnected removal -/
